@@ -14,10 +14,10 @@ CHECKS = {
    text="Seeded simulated histories (10..5000 commands over 2-6 arbitrary keys, binary values, any flags, TTLs and clock jumps, both eviction policies with an unreachable limit) run through the real codec/handler/store (ring H) and through the whole server on the simulated transport with random segmentation (ring N, 1 run in 4); every retrieval is compared with an executable reference model. Right level: the property quantifies over histories and inputs, which seeded exploration samples far beyond the unit tests; no finite enumeration exists.",
    tech="deterministic simulation (seeded histories, simulated clock and transport) against a reference model"),
  "C02": dict(cat="exploration", ref="7 C02",
-   text="Seeded histories biased to CAS-carrying variants of every mutation with current / stale-but-issued / current+1 / arbitrary / u64::MAX tokens; the model observes acknowledged CAS values and checks: success iff current, failure is 0x02 and changes nothing, every new CAS is new within the lifetime, retrievals report the acknowledged CAS. Rings H and N.",
-   tech="deterministic simulation against a CAS-observing reference model"),
+   text="Seeded histories biased to CAS-carrying variants of every mutation with current / stale-but-issued / current+1 / arbitrary / u64::MAX tokens; the model observes acknowledged CAS values and checks: success iff current, failure is 0x02 and changes nothing, every new CAS is new within the lifetime, retrievals report the acknowledged CAS. Rings H and N; one run in ten is a ring-T program (2-3 client threads, seeded schedule) of set / cas-set with the current or a stale token / delete with and without CAS / get on one key: within one lifetime no two acknowledged mutations share a token, and a history with CAS-carrying commands must be linearizable.",
+   tech="deterministic simulation against a CAS-observing reference model; baton-scheduled concurrent programs with a token-uniqueness oracle and a linearizability checker"),
  "C05": dict(cat="exploration", ref="7 C05",
-   text="Seeded histories of stores with TTLs 0..2^32-1 s under a simulated clock whose advances are aimed at expiry-1, expiry, expiry+1 and far beyond (ring H, arbitrary jumps) and under the real 1 Hz SystemTimer on tokio's virtual time (ring N, ticks landing between TCP segments); every command kind is issued on live, just-expired and long-expired items, with delayed flushes in the mix. Exact expiry instants are asserted (no slack); the server clock itself is checked against elapsed virtual time. One run in ten is a ring-T program: 2-3 client threads under a seeded schedule race every command kind on a key whose item is one second inside its TTL, exactly at expiry, or past it and not yet collected (clock fixed while they overlap); nothing returned may derive from the expired value, every command sees the key absent when nothing can create it and present when it is alive and nothing deletes it.",
+   text="Seeded histories of stores with TTLs 0..2^32-1 s under a simulated clock whose advances are aimed at expiry-1, expiry, expiry+1 and far beyond (ring H, arbitrary jumps) and under the real 1 Hz SystemTimer on tokio's virtual time (ring N, ticks landing between TCP segments; in half of those runs long advances are one clock jump, as after a stall of the timer thread, and the timer has to catch up); every command kind is issued on live, just-expired and long-expired items, with delayed flushes in the mix. Exact expiry instants are asserted (no slack); the server clock itself is checked against elapsed virtual time. One run in ten is a ring-T program: 2-3 client threads under a seeded schedule race every command kind on a key whose item is one second inside its TTL, exactly at expiry, or past it and not yet collected (clock fixed while they overlap); nothing returned may derive from the expired value, every command sees the key absent when nothing can create it and present when it is alive and nothing deletes it.",
    tech="deterministic simulation with simulated clock / virtual-time SystemTimer against a reference model with exact expiry intervals; baton-scheduled concurrent programs with a direct expiry oracle"),
  "C06": dict(cat="exploration", ref="7 C06",
    text="Reference-model check under a workload biased to add/replace/append/prepend hitting absent, present, expired, deleted-and-recreated and flushed keys, each mutation followed (60%) by a verifying get so that a wrong value/flags/CAS is pinned on the command that caused it. The property has no schedule or fault dimension of its own; the simulator contributes connections, segmentation and the clock as context.",
@@ -29,13 +29,13 @@ CHECKS = {
    text="Reference-model check under a delete/flush-heavy workload over 3-6 keys: deletes with CAS 0 / matching / stale, immediate and delayed flushes (delay 1..1e6 s), clock advances across the flush deadline, re-stores after the flush. One run in ten is a ring-T program under a seeded schedule: deletes (CAS 0 / current / stale) racing set / cas-set / get on one key must linearize, and a failure that disappears when the deletes are left free is reported as the deletes' fault; immediate flushes racing stores over 3-4 keys obey real-time order (nothing acknowledged before a flush is read after it returned; a store invoked after every flush returned survives).",
    tech="deterministic simulation (rings H/N) against a reference model; baton-scheduled concurrent programs with a linearizability checker (delete attribution) and a real-time flush oracle"),
  "C09": dict(cat="exploration", ref="7 C09",
-   text="Metamorphic simulation: each seeded pipelined stream (every opcode, wrong-shape frames, now and then an oversized one) is delivered to a fresh server one-shot and then under every single cut point, all pairs of cuts at the decoder for short streams (sampled pairs at the socket), byte-at-a-time and random cuttings; response bytes, close state and final store dump must equal the one-shot reference, and on the reference every frame must occupy exactly 24+body_length bytes or the connection closes there. Segmentation is the schedule dimension the simulated transport owns.",
+   text="Metamorphic simulation: each seeded pipelined stream (every opcode, wrong-shape frames, now and then an oversized one, one stream in eight with a large in-limit store of 4 KiB .. 66 KB mid-pipeline) is delivered to a fresh server one-shot and then under every single cut point, all pairs of cuts at the decoder for short streams (sampled pairs at the socket), byte-at-a-time and random cuttings; response bytes, close state and final store dump must equal the one-shot reference, and on the reference every frame must occupy exactly 24+body_length bytes or the connection closes there. Segmentation is the schedule dimension the simulated transport owns.",
    tech="deterministic simulation: simulator-chosen TCP segmentation, metamorphic comparison + framing model"),
  "C11": dict(cat="exploration", ref="7 C11",
-   text="Every response the simulator receives (all rings, all checks) is re-parsed by an independent response parser; this check drives a workload maximising opcode x outcome x store-state coverage (incl. too-large, not-supported, non-numeric, key-exists) and validates each frame against its request. No schedule/fault dimension of its own.",
+   text="Every response the simulator receives (all rings, all checks) is re-parsed by an independent response parser; this check drives a workload maximising opcode x outcome x store-state x size coverage (values up to 300 KB, lengths at 2^12 / 2^15 / 2^16 / 2^17 +- 1) (incl. too-large, not-supported, non-numeric, key-exists) and validates each frame against its request. No schedule/fault dimension of its own.",
    tech="deterministic simulation (rings H/N) with an independent response validator"),
  "C12": dict(cat="exploration", ref="7 C12",
-   text="Whole server on the simulated transport: pipelines mixing loud/quiet variants of every opcode, unimplemented and unknown opcodes, quit/quitq anywhere, 1-3 connections, random segmentation; after every event the server is run to quiescence, so 'no response' is decided rather than timed out; responses must arrive in request order, one per loud request of a known opcode, quiet rules, quit rules, nothing after quit executed (observer connection).",
+   text="Whole server on the simulated transport: pipelines mixing loud/quiet variants of every opcode, unimplemented and unknown opcodes, quit/quitq anywhere, 1-3 connections, random segmentation, pipelines of several KiB in few pieces, now and then a request above a small item limit mid-pipeline; after every event the server is run to quiescence, so 'no response' is decided rather than timed out; responses must arrive in request order, one per loud request of a known opcode, quiet rules, quit rules, nothing after quit executed (observer connection).",
    tech="deterministic simulation: whole server on simulated transport, run-to-quiescence, framing + reference model"),
  "C13": dict(cat="exploration", ref="7 C13",
    text="Whole server on the simulated transport under item limits 1 KiB..4 MiB: a request with body length limit-1 / limit / limit+1 / 2x / 16 MiB of every opcode of the protocol table (loud, quiet, quit/quitq, unimplemented) at any pipeline position, with the simulator choosing exactly how many body bytes are readable when the oversized header is parsed (0, 1, half+-1, all-1, all, all + following requests, around the 4 KiB initial buffer); 0x03 above the limit only, exactly body_length bytes discarded, following requests answered in order, store unchanged.",
@@ -45,21 +45,21 @@ CHECKS = {
    tech="deterministic simulation: baton scheduler over real threads (scheduler-owned shard locks and atomics), seeded schedule search, linearizability checker",
    note="Trusted base: scheduler sequentially consistent; DashMap's parking-lot lock taken only after the scheduler granted it; reference model of section 6.1. Sampling of schedules, not enumeration."),
  "C04": dict(cat="exploration", ref="7 C04",
-   text="Ring T as for C03 with add / replace / append / prepend / incr / decr mixed with get / set / delete; histories are checked for linearizability under the atomic specification. memc-rs implements all six commands as get-then-set: histories that are not linearizable atomically but are explained exactly by splitting the named commands into their read step and their write step (relaxed specification) are attributed to the open known findings rmw-window:<command>; any history that even the relaxed specification cannot explain is a VIOLATION.",
+   text="Ring T as for C03 with add / replace / append / prepend / incr / decr mixed with get / set / delete (with and without CAS); histories are checked for linearizability under the atomic specification. memc-rs implements all six commands as get-then-set: histories that are not linearizable atomically but are explained exactly by splitting the named commands into their read step and their write step (relaxed specification) are attributed to the open known findings rmw-window:<command>; any history that even the relaxed specification cannot explain is a VIOLATION.",
    tech="deterministic simulation: baton scheduler, seeded schedule search, linearizability checker with relaxed-spec attribution of known findings",
    note="Trusted base as C03; the relaxed specification (lin.rs) models memc-rs's Cache::set semantics and is used only to decide whether a failing history is one of the recorded read-modify-write windows."),
  "C14": dict(cat="exploration", ref="7 C14",
    text="Sequential (ring H): workloads of stores/overwrites/appends/counter updates/deletes/flushes/expiries under random eviction with limits 0..100000 and record sizes around and above the limit; after every single command the sum of Record::len() over the inner store must be <= limit + record just written and a record just acknowledged must be present. Concurrent (ring T, 1 run in 5): 2-3 clients x 1-3 stores/deletes under seeded schedules; at the end the sum must be <= limit + one record per store that overlapped another store + the last store, and after each of 1-2 sequential 'settle' stores that follow the sequential bound must hold again. Victim choice is seeded (hook), iteration order deterministic.",
    tech="deterministic simulation: per-command invariant on ring H + scheduler-controlled concurrent programs on ring T"),
  "C15": dict(cat="exploration", ref="7 C15",
-   text="Ring H, long workloads (30..10000 commands of every kind) over a live set of 2-5 small items under a limit 20-1000x the live set (one workload in three: a limit its own accounted usage reaches exactly, found by a dry run). A record of a key the command does not address that vanishes during a store was evicted, which is only allowed when accounted usage + the record being written exceeds the limit. After every command accounted usage (hook accessor) minus stored bytes must not grow; every growth is attributed to an exact mechanism (overwrite adds without subtracting the replaced record; failed conditional store still counted; expired item collected on access; flush bypasses the accounting) by matching the amount, and anything not matched exactly is a VIOLATION (drift:unexplained). Behavioural form: a model-live key that misses is a VIOLATION unless the accounted usage had exceeded the limit (the recorded consequence of the drift). The four mechanisms and the consequence are open known findings with embedded 2-3 command histories.",
-   tech="deterministic simulation: per-command accounting invariant with exact attribution + reference model"),
+   text="Ring H, long workloads (30..10000 commands of every kind) over a live set of 2-5 small items under a limit 20-1000x the live set (one workload in three: a limit its own accounted usage reaches exactly, found by a dry run). A record of a key the command does not address that vanishes during a store was evicted, which is only allowed when accounted usage + the record being written exceeds the limit. After every command accounted usage (hook accessor) minus stored bytes must not grow; every growth is attributed to an exact mechanism (overwrite adds without subtracting the replaced record; failed conditional store still counted; expired item collected on access; flush bypasses the accounting) by matching the amount, and anything not matched exactly is a VIOLATION (drift:unexplained). Concurrent side (ring T, 1 run in 4): 2-3 clients of fresh-key stores, deletes of existing keys and gets under limits 80-400 bytes; none of the recorded mechanisms can occur there and the recorded races only lower the counter, so accounted usage > stored bytes afterwards is a VIOLATION. For a plain store that starts above the limit the sweep's arithmetic is checked exactly. Behavioural form: a model-live key that misses is a VIOLATION unless the accounted usage had exceeded the limit (the recorded consequence of the drift). The four mechanisms and the consequence are open known findings with embedded 2-3 command histories.",
+   tech="deterministic simulation: per-command accounting invariant with exact attribution + reference model; baton-scheduled concurrent programs with an over-count oracle"),
  "C16": dict(cat="exploration", ref="7 C16",
    text="Ring T: 2-3 clients issuing any commands (single-key, multi-key, immediate and delayed flush over all shards, stores that trigger eviction sweeps, expiry collection) under seeded random / PCT schedules; the scheduler keeps the holder table of every shard lock and only grants a thread whose next acquire can succeed, so 'no thread can be granted, some unfinished' is an exact deadlock (reported with who waits for which lock held by whom); a step budget (20000 scheduling points, programs need < 500) reports livelock; a 30 s wall-clock watchdog reports a step that never reaches a scheduling point.",
    tech="deterministic simulation: baton scheduler with exact deadlock detection and step budget",
    note="Trusted base: the scheduler's holder table mirrors DashMap's lock protocol (read/write/try/downgrade); the OS-scheduled stress half of the quantifier is not done."),
  "C10": dict(cat="exploration", ref="7 C10",
-   text="Ring H: the full grid of header fields for every opcode 0..255 (key length {0..3, 8, 250, 251, 65535} x every extras length around the parsers' 4/8/20-byte blocks x body length small, around key+extras, around the item limit and up to 2^32-1 x magic/data type x CAS x bytes present), fed one-shot / header-first / in small chunks to the real decoder, every decoded request executed and encoded, under overflow checks. Ring N: byzantine clients (noise, valid frames with one field replaced by an extreme, short self-consistent frames of any opcode, counters with extreme operands, bit flips) with random segmentation against the whole server, then silence past the idle timeout and a well-behaved client. Oracle: no panic, quiescence within the poll budget, listed-invalid frames never executed, decode buffer capacity bounded (ring H), no length-proportional allocation (counting allocator, ring N), connection released, server still serving.",
+   text="Ring H: the full grid of header fields for every opcode 0..255 (key length {0..3, 8, 250, 251, 65535} x every extras length around the parsers' 4/8/20-byte blocks x body length small, around key+extras, around the item limit and up to 2^32-1 x magic/data type x CAS x bytes present), fed one-shot / header-first / in small chunks to the real decoder, every decoded request executed and encoded, under overflow checks. Ring N: byzantine clients (noise, valid frames with one field replaced by an extreme, short self-consistent frames of any opcode, counters with extreme operands, bit flips) with random segmentation against the whole server, then silence past the idle timeout and a well-behaved client; one run in 2000 streams a request announcing 0.5-2 MiB (limit 1-4 KiB) in 4-16 KiB pieces. Oracle: no panic, quiescence within the poll budget, listed-invalid frames never executed, decode buffer capacity bounded (ring H), no length-proportional allocation and a bound on the memory held for a connection while an oversized body streams in (per-thread counting allocator, ring N), connection released, server still serving.",
    tech="deterministic simulation: enumerated header grid on the decoder + seeded byzantine streams on the simulated transport, counting allocator"),
  "C17": dict(cat="exploration", ref="7 C17",
    text="Whole server on the simulated transport for limits 1-4 and idle timeouts 1-10 s: seeded histories of 3..10 x limit connection lifecycles with overlapping arrivals, each ending by client close, close after work, quit, quitq, close mid-header, close mid-body, invalid magic, unknown opcode, oversized item then close, idle timeout (virtual time; silence with an empty buffer, mid header, mid body, after a complete request, and with a partial request behind a complete one), reset or reset mid-request, with noop probes in between. Invariants at quiescence after every event: served <= limit; if any connection waits exactly limit are served; served connections answer, unserved do not. Bounded liveness after the last fault: exactly limit fresh connections are served, one more only after a slot is freed.",
@@ -71,7 +71,7 @@ CHECKS = {
    text="Paired simulated runs from one seed: program P and P' with a random subset of positions switched between loud and quiet opcodes, each on a fresh identical server (ring H; 1 pair in 5 on ring N with identical segmentation), with the CAS tokens P resolved carried over literally, followed by dumps of every key under a common clock-advance schedule. Untoggled positions and all dumps (values, flags, CAS, expiry) must be answered byte-identically; toggled positions: errors identical apart from the opcode, quiet success / quiet miss silent, quiet hit payload = loud hit payload. Metamorphic; no fault dimension of its own.",
    tech="deterministic simulation: paired (metamorphic) runs on identical simulated servers"),
  "C20": dict(cat="exploration", ref="7 C20",
-   text="(a) deterministic configuration differential on ring N: one seeded program with one segmentation on a reference server and on servers differing only in eviction policy (none / random, unreached limit), memory limit, item size limit, connection limit, backlog, shard count, hash and victim seeds: responses byte-identical. (b) runtime flavour and thread count only change which store-step interleavings occur: sampled by ring T (C03, C04, C14, C16). (c) start-up path: cli::parser::parse + runtime_builder::create_memcrs_server executed for real over --runtime-type x --threads {1,2,8} x --eviction-policy x item size x connection limit, listeners bound to the simulated network (the simulator picks the listener for each connection), server on the OS threads / tokio runtimes runtime_builder creates (scheduling NOT owned by the simulator): only schedule-independent observations (a synchronous program's answers by value, at most connection-limit connections served, a lone connection served at every listener, oversized set refused, one TTL probe on the real clock), reported as uncontrolled_schedule_runs.",
+   text="(a) deterministic configuration differential on ring N: one seeded program with one segmentation on a reference server and on servers differing only in eviction policy (none / random, unreached limit), memory limit, item size limit, connection limit, backlog, shard count, hash and victim seeds, and whether the timer thread was stalled during long advances: responses byte-identical, and the server clock follows elapsed seconds. (b) runtime flavour and thread count only change which store-step interleavings occur: sampled by ring T (C03, C04, C14, C16). (c) start-up path: cli::parser::parse + runtime_builder::create_memcrs_server executed for real over --runtime-type x --threads {1,2,8} x --eviction-policy x item size x connection limit x memory limit (512 B .. 8 GiB) x backlog, listeners bound to the simulated network (the simulator picks the listener for each connection), server on the OS threads / tokio runtimes runtime_builder creates (scheduling NOT owned by the simulator): only schedule-independent observations (a synchronous program's answers by value, at most connection-limit connections served, a lone connection served at every listener, oversized set refused, one TTL probe on the real clock), reported as uncontrolled_schedule_runs.",
    tech="deterministic simulation (configuration differential on the simulated transport) + start-up path on the simulated network with uncontrolled OS threads",
    note="Trusted base as for ring N. Part (c) is not deterministic simulation in the strict sense: real threads, real clock; it makes only observations that cannot raise a false alarm on a slow machine (long deadline for expected answers, short settle for expected silence). The memcrsd binary over loopback, core pinning and kernel SO_REUSEPORT balancing are out of reach."),
 }
